@@ -485,9 +485,7 @@ func conclude(id, tier string, m *Merged, b *build, start time.Time, writeEviden
 		vb, _ := json.MarshalIndent(v, "", " ")
 		h := sha1.Sum([]byte(fmt.Sprint(v["scenario"], v["choices"])))
 		path := filepath.Join(verifDir, "replays", fmt.Sprintf("%s-%x.json", id, h[:5]))
-		if writeEvidence {
-			os.WriteFile(path, vb, 0o644)
-		}
+		os.WriteFile(path, vb, 0o644) // replay artefacts are always written (git-ignored scratch)
 		if !printed[path] {
 			printed[path] = true
 			fmt.Printf("VIOLATION property=%s replay=%s\n", id, path)
